@@ -10,10 +10,8 @@ type callconv =
 
 (** val linkage_of : bool -> bool -> bool -> bool -> bool -> linkage **)
 
-let linkage_of is_public is_external is_main is_forward _ =
-  if (||) ((||) ((||) is_public is_main) is_forward) is_external
-  then LExternal
-  else LPrivate
+let linkage_of is_public _ is_main is_forward _ =
+  if (||) ((||) is_public is_main) is_forward then LExternal else LPrivate
 
 (** val callconv_of : bool -> bool -> bool -> bool -> bool -> callconv **)
 
